@@ -214,6 +214,24 @@ func ruleDecoderBijection(r *Report, rule, pkgRel, typeName string, allowUntagge
 		}
 		for _, stf := range storesToField(info, fi.Decl.Body, typeName, f.Var.Name()) {
 			if !g.DominatesNode(stf.Stmt, loop.X) {
+				// a store after the key loop that is conditional on the field still being zero:
+				// "present with the zero value" is then decoded like "absent"
+				if g.ReachesNode(loop.X, stf.Stmt) && stf.Stmt.Pos() > loop.End() {
+					zeroGuard := false
+					for _, fct := range g.GuardsOf(stf.Stmt) {
+						be, isB := ast.Unparen(fct.Expr).(*ast.BinaryExpr)
+						if !isB || fct.Tag != nil {
+							continue
+						}
+						if fs, ok := asFieldSel(info, be.X); ok && fs.Owner == typeName && fs.Field == f.Var && ((be.Op == token.EQL && fct.Truth) || (be.Op == token.NEQ && !fct.Truth)) {
+							zeroGuard = true
+						}
+					}
+					if zeroGuard && !jsonEmptyDefault(info, stf.Rhs, f.Var.Type()) {
+						r.Ob(rule, typeName+"."+f.Var.Name()+"/explicit-zero-is-not-defaulted", stf.Stmt.Pos(), false,
+							"after the key loop the decoder replaces a zero "+f.Var.Name()+" by "+exprShort(stf.Rhs)+": a mapping saved with the field explicitly set to its zero value reopens with the default instead (present-but-empty is decoded like absent)")
+					}
+				}
 				continue // not a pre-loop default
 			}
 			empty := jsonEmptyDefault(info, stf.Rhs, f.Var.Type())
